@@ -103,7 +103,10 @@ func (s c08spec) String() string {
 
 func (e *c08env) ballot(s c08spec) base.Ballot {
 	point := base.RawPoint(s.height, s.round)
-	n := e.nodes[s.signer]
+	var n base.LocalNode = e.local
+	if s.signer >= 0 {
+		n = e.nodes[s.signer]
+	}
 	switch s.kind {
 	case "init", "confirm":
 		var fact base.INITBallotFact
@@ -133,8 +136,11 @@ func (e *c08env) ballot(s c08spec) base.Ballot {
 
 type c08scenario struct {
 	state       StateType
-	delivers    [][]c08spec // per thread
+	delivers    [][]c08spec // per thread: ballots of sync sources delivered to the mimic path
 	rebroadcast bool
+	// per thread: LOCAL ballots handed to BallotBroadcaster.Broadcast one after the other (what the consensus
+	// handlers and the ballot broadcast timers do: broadcast, and re-broadcast on every tick)
+	directs [][]c08spec
 }
 
 func (s c08scenario) id() string {
@@ -146,7 +152,29 @@ func (s c08scenario) id() string {
 		}
 		ts = append(ts, strings.Join(xs, ","))
 	}
-	return fmt.Sprintf("%s|%s|rebroadcast=%v", s.state, strings.Join(ts, " || "), s.rebroadcast)
+	id := fmt.Sprintf("%s|%s|rebroadcast=%v", s.state, strings.Join(ts, " || "), s.rebroadcast)
+	if len(s.directs) > 0 {
+		var ds []string
+		for _, d := range s.directs {
+			var xs []string
+			for _, b := range d {
+				xs = append(xs, b.String())
+			}
+			ds = append(ds, strings.Join(xs, ","))
+		}
+		id += "|direct=" + strings.Join(ds, " || ")
+	}
+	return id
+}
+
+func c08path(s c08scenario) string {
+	switch {
+	case len(s.directs) > 0 && len(s.delivers) > 0:
+		return "mimic-ballot+direct-broadcast"
+	case len(s.directs) > 0:
+		return "direct-broadcast"
+	}
+	return "mimic-ballot"
 }
 
 type c08sent struct {
@@ -197,6 +225,15 @@ func c08build(e *c08env, s c08scenario, ballots map[string]base.Ballot) vsched.S
 			}
 		})
 	}
+	for _, d := range s.directs {
+		d := d
+		roots = append(roots, func() {
+			for _, spec := range d {
+				vsched.Point("direct-broadcast", nil)
+				_ = bb.Broadcast(ballots[spec.String()])
+			}
+		})
+	}
 	if s.rebroadcast {
 		first := s.delivers[0][0]
 		roots = append(roots, func() {
@@ -243,7 +280,7 @@ func c08build(e *c08env, s c08scenario, ballots map[string]base.Ballot) vsched.S
 			for k, fs := range by {
 				if len(fs) > 1 {
 					return &vsched.Fail{
-						Sig:    map[string]any{"kind": "equivocation", "path": "mimic-ballot", "rebroadcast_thread": s.rebroadcast},
+						Sig:    map[string]any{"kind": "equivocation", "path": c08path(s), "rebroadcast_thread": s.rebroadcast},
 						Detail: fmt.Sprintf("local node broadcast %d different ballot facts for %s: %s | %s", len(fs), k, sum, s.id()),
 					}
 				}
@@ -300,6 +337,24 @@ func TestVerifC08(t *testing.T) {
 			scs = append(scs, c08scenario{state: state, delivers: [][]c08spec{{a, {kind, 33, 1, "A", 0}}, {{kind, 33, 1, "B", 1}, {kind, 33, 0, "B", 1}}}})
 		}
 	}
+	// direct broadcasts of local ballots (handlers / broadcast timers): a refused ballot must stay refused on every retry
+	for _, kind := range []string{"init", "accept"} {
+		A, B := c08spec{kind, 33, 0, "A", -1}, c08spec{kind, 33, 0, "B", -1}
+		other := c08spec{kind, 33, 1, "B", -1}
+		for _, ds := range [][][]c08spec{
+			{{A, B, B}},        // B refused, retried
+			{{A, B, A, B, B}},  // alternating ticks
+			{{A, A}, {B, B}},   // two timers ticking concurrently
+			{{A}, {B, B, B}},   // late ballot retried three times
+			{{A, other, B, B}}, // another stage point in between
+			{{B, A, A}, {A, B}},
+		} {
+			scs = append(scs, c08scenario{state: StateSyncing, directs: ds})
+		}
+		// mimic path stores A, a handler ballot B is then broadcast and re-broadcast by its timer
+		scs = append(scs, c08scenario{state: StateSyncing, delivers: [][]c08spec{{{kind, 33, 0, "A", 0}}}, directs: [][]c08spec{{B, B}}})
+		scs = append(scs, c08scenario{state: StateSyncing, delivers: [][]c08spec{{{kind, 33, 0, "A", 0}}, {{kind, 33, 0, "C", 1}}}, directs: [][]c08spec{{B, B, B}}})
+	}
 	r.Set("scenarios_enumerated", len(scs))
 	for i, s := range scs {
 		if !r.Mine(i) || r.Expired() {
@@ -309,7 +364,7 @@ func TestVerifC08(t *testing.T) {
 		id := s.id()
 		// ballots are signed once per scenario (signing time differs between runs, but it is data only)
 		ballots := map[string]base.Ballot{}
-		for _, d := range s.delivers {
+		for _, d := range append(append([][]c08spec{}, s.delivers...), s.directs...) {
 			for _, spec := range d {
 				ballots[spec.String()] = e.ballot(spec)
 			}
